@@ -846,6 +846,10 @@ class Interp:
             if not (0 < ord(e["v"]) < 128):
                 self.unsupported("non-ASCII char literal", e)
             return CharV(bv(ord(e["v"]), 8))
+        if t == "byte":
+            if not (0 < int(e["v"]) < 128):
+                self.unsupported("non-ASCII byte literal", e)
+            return CharV(bv(int(e["v"]), 8))
         if t == "int":
             if e.get("suffix") not in ("", "usize", "u32", "u64", None):
                 self.unsupported("integer literal suffix " + str(e.get("suffix")), e)
